@@ -231,6 +231,14 @@ func (p *Program) LookupType(defPkg *types.Package, name string) types.Type {
 // sentinelError reports whether g is a package-level variable that the package initialiser sets to
 // the result of errors.New / fmt.Errorf and that no other instruction of the loaded module stores to.
 func (p *Program) sentinelError(g *ssa.Global) bool {
+	// sentinel errors of packages outside the module (io.EOF, io.ErrUnexpectedEOF, ...) are
+	// initialised by errors.New in their own package and never reassigned: assumed non-nil
+	if g.Pkg != nil {
+		path := g.Pkg.Pkg.Path()
+		if !(path == p.ModPath || strings.HasPrefix(path, p.ModPath+"/")) {
+			return strings.HasPrefix(g.Name(), "Err") || g.Name() == "EOF"
+		}
+	}
 	if p.sentinels == nil {
 		p.sentinels = map[*ssa.Global]int{}
 		initStores := map[*ssa.Global]bool{}
